@@ -6,7 +6,14 @@ use std::path::{Path, PathBuf};
 
 pub fn rel(root: &Path, p: &Path) -> String {
     if let Ok(r) = p.strip_prefix(root) {
-        return r.to_string_lossy().to_string();
+        let r = r.to_string_lossy().to_string();
+        // (specs and models name the virtualenv's library directory `SITE` whatever its layout on disk)
+        for layout in super::ws::VENV_LAYOUTS {
+            if let Some(rest) = r.strip_prefix(&format!(".venv/{}/site-packages", layout)) {
+                return format!("{}{}", super::ws::SITE, rest);
+            }
+        }
+        return r;
     }
     // files next to the workspace (external editable installs) are named relative to it as well
     if let Some(parent) = root.parent() {
